@@ -134,7 +134,7 @@ let parse_body (s : string) : Api.body_in =
   | ["none"] -> mk "n" Api.PNothing
   | ["bad"; ct] -> mk ct Api.PMalformed
   | ["desc"; ct; c; aru; uwk] ->
-     let bit s i = s.[i] = '1' in
+     let bit s i = s.[i] <> '0' in   (* '1' = present, '2' = present and empty: both are "not nil" *)
      mk ct (Api.PDesc { Api.db_pub = { Api.p_comment = cs (dash c); p_auto_subgroups = bit aru 0;
                                        p_allow_recording = bit aru 1; p_unrestricted_tokens = bit aru 2 };
                         db_users = bit uwk 0; db_wildcard = bit uwk 1; db_keys = bit uwk 2 })
